@@ -2,4 +2,4 @@
 From Coq Require Import ExtrOcamlBasic.
 From Coq Require Import List NArith.
 Require Import PV.Binder.Kind PV.Binder.Sig PV.Binder.Bind PV.Binder.PyBind.
-Extraction "c05model.ml" preprocess bind bind_legacy py_bind_full valid_sig.
+Extraction "c05model.ml" preprocess preprocess_u bind bind_legacy py_bind_full valid_sig.
